@@ -28,11 +28,12 @@ VARIABLES l,      \* next event
           exs,    \* exchanges of the public call in progress (observed)
           pcall,  \* the public call in progress (observed): [op, tok, amt] (op = "" none)
           open,   \* P_C07: token -> receipt, from observations only
-          clean   \* no connection was opened or closed since the scenario started: the fault-free quantifier of C07/C08/C18/C19/C20
-tvars == <<l, cfg, sc, c, sync, cur, exs, pcall, open, clean>>
+          hist,   \* token -> receipt number of the last reservation recorded for it (never forgotten): P_C08's pairing of token and receipt
+          clean   \* no connection was opened or closed since the scenario started: the fault-free quantifier of C07/C08/C18/C19
+tvars == <<l, cfg, sc, c, sync, cur, exs, pcall, open, hist, clean>>
 
 Ev == Trc[l]
-NoCur == [open |-> FALSE, ex |-> 0, cmd |-> "", seq |-> "", val |-> <<>>, replies |-> <<>>]
+NoCur == [open |-> FALSE, ex |-> 0, cmd |-> "", seq |-> "", val |-> <<>>, replies |-> <<>>, acks |-> 0]
 NoCall == [op |-> "", tok |-> <<>>, amt |-> <<>>]
 Cfg0 == [pre |-> <<>>, cur |-> <<>>, password |-> <<>>, tid |-> <<>>, timeout |-> 0, max |-> 0]
 
@@ -63,16 +64,17 @@ RetMatches(c0, ret) ==
 Closed(cc, cu) == IF cu.open /\ ~Returned(cc) THEN OnReplies(cfg, cc, cu.replies) ELSE cc
 ExsClosed == IF cur.open THEN Append(exs, cur) ELSE exs
 
-TInit == /\ l = 1 /\ cfg = Cfg0 /\ sc = 0 /\ c = Idle(Empty) /\ sync = TRUE /\ cur = NoCur /\ exs = <<>> /\ pcall = NoCall /\ open = Empty /\ clean = TRUE
+TInit == /\ l = 1 /\ cfg = Cfg0 /\ sc = 0 /\ c = Idle(Empty) /\ sync = TRUE /\ cur = NoCur /\ exs = <<>> /\ pcall = NoCall /\ open = Empty /\ hist = Empty /\ clean = TRUE
 
 TReset == /\ Ev.e = "reset"
-          /\ cfg' = Ev.cfg /\ sc' = Ev.sc /\ c' = Idle(Empty) /\ sync' = TRUE /\ cur' = NoCur /\ exs' = <<>> /\ pcall' = NoCall /\ open' = Empty /\ clean' = TRUE
+          /\ cfg' = Ev.cfg /\ sc' = Ev.sc /\ c' = Idle(Empty) /\ sync' = TRUE /\ cur' = NoCur /\ exs' = <<>> /\ pcall' = NoCall /\ open' = Empty /\ hist' = Empty
+          /\ clean' = TRUE
 
 TCall == /\ Ev.e = "call"
          /\ pcall' = [op |-> Ev.op, tok |-> Ev.token, amt |-> Ev.amount]
          /\ exs' = <<>> /\ cur' = NoCur
          /\ c' = IF sync THEN Call(cfg, c, Ev.op, Ev.token, Ev.amount) ELSE c
-         /\ UNCHANGED <<cfg, sc, sync, open, clean>>
+         /\ UNCHANGED <<cfg, sc, sync, open, hist, clean>>
 
 \* a request reaches the terminal (not part of the connection handshake)
 TRequest ==
@@ -83,19 +85,28 @@ TRequest ==
          want == IF sync /\ ~Returned(c1) THEN NextReq(cfg, c1) ELSE NoReq
          good == sync /\ want.seq = sq /\ d.ok /\ d.val = want.val /\ d.rest = <<>> IN
      /\ exs' = ExsClosed
-     /\ cur' = [open |-> TRUE, ex |-> Ev.ex, cmd |-> Ev.cmd, seq |-> sq, val |-> IF d.ok THEN d.val ELSE <<>>, replies |-> <<>>]
+     /\ cur' = [open |-> TRUE, ex |-> Ev.ex, cmd |-> Ev.cmd, seq |-> sq, val |-> IF d.ok THEN d.val ELSE <<>>, replies |-> <<>>, acks |-> 0]
      /\ c' = c1
      /\ sync' = good
-     /\ (IF good \/ ~sync THEN TRUE ELSE PrintT(<<"IFLAG", sc, l, "request", ToJson([want |-> want.seq, got |-> Ev.cmd])>>))
-  /\ UNCHANGED <<cfg, sc, pcall, open, clean>>
+     \* (FeigClient is the fault-free exchange-level program: after connection churn the retries are ResetStream's business)
+     /\ (IF good \/ ~sync \/ ~clean THEN TRUE ELSE PrintT(<<"IFLAG", sc, l, "request", ToJson([want |-> want.seq, got |-> Ev.cmd])>>))
+  /\ UNCHANGED <<cfg, sc, pcall, open, hist, clean>>
 
-\* a reply frame of the exchange being collected (position 0 is the acknowledgement)
+\* a reply frame of the exchange being collected has been consumed by the client (position 0 is the acknowledgement); what the
+\* terminal sent but the client never read is not part of the exchange
+IsReply == Ev.e = "got" /\ Ev.planned /\ cur.open /\ Ev.ex = cur.ex /\ Ev.pos >= 1
+IsAck == Ev.e = "rx" /\ Ev.cmd = "Ack" /\ cur.open /\ Ev.ex = cur.ex
 TReply ==
-  /\ Ev.e = "tx" /\ cur.open /\ Ev.ex = cur.ex /\ Ev.pos >= 1
+  /\ IsReply
   /\ LET r == ParseEnum(SequencesTable[cur.seq].parser, Ev.raw) IN
      IF r.ok THEN cur' = [cur EXCEPT !.replies = Append(@, [v |-> r.variant, val |-> r.val])] /\ sync' = sync
-     ELSE cur' = cur /\ sync' = FALSE /\ (IF ~sync THEN TRUE ELSE PrintT(<<"IFLAG", sc, l, "undecodable-reply", "{}">>))
-  /\ UNCHANGED <<cfg, sc, c, exs, pcall, open, clean>>
+     ELSE cur' = cur /\ sync' = FALSE /\ (IF ~sync \/ ~clean THEN TRUE ELSE PrintT(<<"IFLAG", sc, l, "undecodable-reply", "{}">>))
+  /\ UNCHANGED <<cfg, sc, c, exs, pcall, open, hist, clean>>
+\* the client acknowledged a reply: it decoded it and its acknowledgement reached the terminal
+TAck == IsAck /\ cur' = [cur EXCEPT !.acks = @ + 1] /\ UNCHANGED <<cfg, sc, c, sync, exs, pcall, open, hist, clean>>
+
+\* the exchanges whose every consumed reply was acknowledged: what the client demonstrably received and understood
+Acked(xs) == SelectSeq(xs, LAMBDA x : x.acks >= Len(x.replies))
 
 TReturn ==
   /\ Ev.e = "ret" /\ pcall.op # ""
@@ -103,10 +114,13 @@ TReturn ==
          xs == ExsClosed
          ret == ObsRet
          good == sync /\ Returned(c1) /\ RetMatches(c1, ret)
-         pf == PFlags(cfg, open, pcall, xs, ret) IN
-     /\ (IF good \/ ~sync THEN TRUE ELSE PrintT(<<"IFLAG", sc, l, "result", ToJson([stage |-> c1.stage, exp |-> c1.res, got |-> ret.err, ok |-> ret.ok])>>))
-     /\ (IF pf = {} \/ ~clean THEN TRUE ELSE PrintT(<<"PFLAG", sc, l, ToJson(pf)>>))
+         \* after connection churn only C20 is judged, and only on exchanges the client acknowledged to the end: an abort it
+         \* received and acknowledged must surface whatever happened to the connection before
+         pf == IF clean THEN PFlags(cfg, open, pcall, xs, ret) \cup P08h(hist, pcall, xs) ELSE P20(cfg, open, pcall, Acked(xs), ret) IN
+     /\ (IF good \/ ~sync \/ ~clean THEN TRUE ELSE PrintT(<<"IFLAG", sc, l, "result", ToJson([stage |-> c1.stage, exp |-> c1.res, got |-> ret.err, ok |-> ret.ok])>>))
+     /\ (IF pf = {} THEN TRUE ELSE PrintT(<<"PFLAG", sc, l, ToJson(pf)>>))
      /\ open' = P07(cfg, open, pcall, xs, ret).open
+     /\ hist' = HistNext(hist, open, P07(cfg, open, pcall, xs, ret).open, pcall)
      /\ sync' = good
      /\ c' = IF good THEN AfterReturn(c1) ELSE c1
   /\ cur' = NoCur /\ exs' = <<>> /\ pcall' = NoCall
@@ -114,17 +128,22 @@ TReturn ==
 
 \* a call that never returned or panicked: reported by the driver; the scenario ends there
 TAbnormal == /\ Ev.e \in {"hang", "panic"} /\ PrintT(<<"PFLAG", sc, l, ToJson({(IF clean THEN "abnormal-" ELSE "faulty-abnormal-") \o Ev.e})>>)
-             /\ sync' = FALSE /\ pcall' = NoCall /\ cur' = NoCur /\ exs' = <<>> /\ UNCHANGED <<cfg, sc, c, open, clean>>
+             /\ sync' = FALSE /\ pcall' = NoCall /\ cur' = NoCur /\ exs' = <<>> /\ UNCHANGED <<cfg, sc, c, open, hist, clean>>
 
-Handled == \/ Ev.e \in {"reset", "call", "ret", "hang", "panic"}
+\* the client left bytes on a connection that never became a whole frame (a request with a wrong length header): on a healthy
+\* connection that is a request the terminal cannot have understood
+TJunk == /\ Ev.e = "junk" /\ (IF clean THEN PrintT(<<"PFLAG", sc, l, ToJson({"abnormal-mutilated-request"})>>) ELSE TRUE)
+         /\ UNCHANGED <<cfg, sc, c, sync, cur, exs, pcall, open, hist, clean>>
+
+Handled == \/ Ev.e \in {"reset", "call", "ret", "hang", "panic", "junk"}
            \/ (Ev.e = "rx" /\ Ev.cmd # "Ack" /\ "hs" \in DOMAIN Ev /\ Ev.hs = FALSE /\ pcall.op # "")
-           \/ (Ev.e = "tx" /\ cur.open /\ Ev.ex = cur.ex /\ Ev.pos >= 1)
+           \/ IsReply \/ IsAck
 \* connection churn inside a call (a reconnect after a failure) takes the rest of the scenario out of the fault-free quantifier
 TSkip == /\ ~Handled
          /\ clean' = (clean /\ ~(Ev.e \in {"open", "fault", "connect_stall", "connect_refused"} \/ (Ev.e = "close" /\ pcall.op # "")))
-         /\ UNCHANGED <<cfg, sc, c, sync, cur, exs, pcall, open>>
+         /\ UNCHANGED <<cfg, sc, c, sync, cur, exs, pcall, open, hist>>
 
-TNext == l <= Len(Trc) /\ l' = l + 1 /\ (TReset \/ TCall \/ TRequest \/ TReply \/ TReturn \/ TAbnormal \/ TSkip)
+TNext == l <= Len(Trc) /\ l' = l + 1 /\ (TReset \/ TCall \/ TRequest \/ TReply \/ TAck \/ TReturn \/ TAbnormal \/ TJunk \/ TSkip)
 
 Finished == LET d == TLCGet("stats").diameter IN d - 1 = Len(Trc) \/ (PrintT(<<"STOPPED-AT", d>>) /\ FALSE)
 =============================================================================
